@@ -191,7 +191,7 @@ Proof.
   intros Hok. pose proof (proj1 (all_kinds_ok_iff doc) Hok) as [Hnd Hno].
   pose proof (group_perm key_of_ext pair_eqb pair_eqb_spec (map key_of_def (all_defs doc)) (all_exts doc)) as G.
   rewrite flat_map_of_map in G. apply G.
-  - apply def_keys_nodup. intros k n. apply nodup_iff in Hnd. apply (Hnd k n).
+  - apply def_keys_nodup. intros k n. apply (proj2 (nodup_iff doc) Hnd k n).
   - intros e He.
     destruct (defs_of (e_kind e) (e_name e) doc) as [|d r] eqn:E.
     + exfalso. apply Hno. exists (e_kind e), (e_name e). split; [|assumption].
